@@ -38,4 +38,9 @@ async def main():
     print("condition: woke", woke, "t1 cancelled", t1.cancelled(), "waiting", cond.statistics().tasks_waiting)
     t2.cancel()
     await asyncio.gather(t1,t2,return_exceptions=True)
-anyio.run(main)
+import io, sys, contextlib
+buf = io.StringIO()
+with contextlib.redirect_stdout(buf):
+    anyio.run(main)
+print(buf.getvalue(), end="")
+sys.exit(1 if "ITEM LOST" in buf.getvalue() else 0)  # exit 1 = defect observed
